@@ -646,19 +646,30 @@ def r29_ballot_count_pairing(ctx):
         ctx.check(ok, R, c, p, 'a parsed line is kept exactly when its ranking survived the strip', how,
                   '%s.append is not guarded by the ranking test' % tgt)
     # a ballot line introduced by a ballot id stands for exactly one ballot
-    ids = [n for n in p.own_nodes() if isinstance(n, ast.If) and "startswith('(')" in unparse(n.test) and
-           any(isinstance(s_, ast.Assign) and isinstance(s_.targets[0], ast.Name) and s_.targets[0].id == 'multiplier' for s_ in n.body)]
+    # the local that becomes the multiplier of the line: second argument of the BallotLine(...) construction
+    mk = [c for c in p.own_nodes() if isinstance(c, ast.Call) and unparse(c.func) == 'self.BallotLine' and len(c.args) == 3]
+    need(len(mk) == 1 and isinstance(mk[0].args[1], ast.Name), 'R29: the BallotLine(self, multiplier, ranking) construction of _bltParse not found')
+    mname = mk[0].args[1].id
+
+    def _is_m(s_):
+        return isinstance(s_, ast.Assign) and isinstance(s_.targets[0], ast.Name) and s_.targets[0].id == mname
+    ids = [n for n in p.own_nodes() if isinstance(n, ast.If) and "startswith('(')" in unparse(n.test) and any(_is_m(s_) for s_ in n.body)]
     for n in ids:
-        asg = [s_ for s_ in n.body if isinstance(s_, ast.Assign) and isinstance(s_.targets[0], ast.Name) and s_.targets[0].id == 'multiplier']
+        asg = [s_ for s_ in n.body if _is_m(s_)]
         ctx.check(len(asg) == 1 and isinstance(asg[0].value, ast.Constant) and asg[0].value.value == 1, R, asg[0], p,
                   'a ballot written with a ballot id counts as one ballot', 'multiplier = 1 in the "(id)" branch',
                   'a ballot-id line gets multiplier `%s`' % unparse(asg[0].value))
     ctx.check(bool(ids), R, p.node, p, 'the ballot-id branch of the parser sets the multiplier', 'found', 'ballot-id branch not found', nontrivial=False)
-    # the multiplier of an ordinary line is the integer read from the file
-    ms = [s_ for s_ in p.own_nodes() if isinstance(s_, ast.Assign) and isinstance(s_.targets[0], ast.Name) and s_.targets[0].id == 'multiplier'
-          and not isinstance(s_.value, ast.Constant)]
-    ctx.check(len(ms) == 1 and unparse(ms[0].value) == 'int(tok)', R, ms[0] if ms else p.node, p,
-              'the multiplier of a ballot line is the number written in the file', 'multiplier = int(tok)',
+    # the multiplier of an ordinary line is the integer read from the file: int(<the token the enclosing test matched>)
+    ms = [s_ for s_ in p.own_nodes() if _is_m(s_) and not isinstance(s_.value, ast.Constant)]
+    okm = False
+    if len(ms) == 1:
+        v_ = ms[0].value
+        par = ms[0].parent
+        okm = isinstance(v_, ast.Call) and unparse(v_.func) == 'int' and len(v_.args) == 1 and isinstance(v_.args[0], ast.Name) \
+            and isinstance(par, ast.If) and any(isinstance(x, ast.Name) and x.id == v_.args[0].id for x in ast.walk(par.test))
+    ctx.check(okm, R, ms[0] if ms else p.node, p,
+              'the multiplier of a ballot line is the number written in the file', 'multiplier = int(tok) under the test that matched tok',
               'multiplier is `%s`' % (unparse(ms[0].value) if ms else None))
     # the ballot total and the multipliers have no other writer
     for fq, g in ctx.repo.funcs.items():
